@@ -267,7 +267,21 @@ fn info_item(item: &Rc<info::XmlItem>, ind: usize, d: &mut Dump) {
                 let val = e.values().map(|vs| {
                     let mut s = String::new();
                     for v in vs {
-                        let _ = write!(s, "{}", v);
+                        // character references are spelled canonically (decimal) so that the
+                        // dump does not depend on the surface spelling
+                        match v {
+                            info::XmlEntityValue::Character(d, r) => match u32::from_str_radix(d, *r) {
+                                Ok(n) => {
+                                    let _ = write!(s, "&#{};", n);
+                                }
+                                Err(_) => {
+                                    let _ = write!(s, "{}", v);
+                                }
+                            },
+                            _ => {
+                                let _ = write!(s, "{}", v);
+                            }
+                        }
                     }
                     s
                 });
@@ -395,7 +409,12 @@ pub fn dom_node(n: &xml_dom::XmlNode, ind: usize, d: &mut Dump) {
         }
         N::EntityReference(r) => {
             let v = r.value().unwrap_or_else(|e| format!("<error {:?}>", e));
-            d.chars(ind, &format!("ref {} = {}", r.node_name(), q(&v)), &v);
+            let name = r.node_name();
+            if name.starts_with("&#") {
+                d.chars(ind, &format!("charref {}", q(&v)), &v);
+            } else {
+                d.chars(ind, &format!("entityref {} = {}", name, q(&v)), &v);
+            }
         }
         N::Comment(c) => {
             let v = c.data().unwrap_or_else(|e| format!("<error {:?}>", e));
